@@ -458,8 +458,10 @@ class Check:
             "coverage": cov, "assumptions": self.assumptions, "wall_s": round(time.time() - self.t0, 2),
             "violations": len(new),
         }
-        os.makedirs(os.path.join(VERIF, "evidence"), exist_ok=True)
-        json.dump(ev, open(os.path.join(VERIF, "evidence", self.prop + ".json"), "w"), indent=1, default=str)
+        # runs against a scratch copy (REPO=..., tools/seed.sh, tools/mut.sh) must not overwrite the evidence of /repo itself
+        evdir = os.path.join(VERIF, "evidence") if os.path.realpath(REPO) == "/repo" else os.path.join(BUILD, "evidence-scratch")
+        os.makedirs(evdir, exist_ok=True)
+        json.dump(ev, open(os.path.join(evdir, self.prop + ".json"), "w"), indent=1, default=str)
         print("%s tier=%s seed=%d evaluations=%d distinct_nontrivial=%d violations=%d known=%d wall=%.1fs" %
               (self.prop, self.tier, self.seed, self.evaluations, distinct, len(new), len(kn), time.time() - self.t0))
         for k in sorted(self.stats):
